@@ -88,7 +88,11 @@ type matCheck struct {
 	// instance of; a failure of the "not rejected / runtime.Error" kind is then
 	// reported under that class instead of the generic one.
 	known string
+	// knownEmpty: as known, for the "empty receiver was sized by the rejected call" failure.
+	knownEmpty string
 }
+
+const emptyState = "<empty>"
 
 type matStats struct {
 	valid, invalid int64
@@ -101,6 +105,7 @@ func runMatCheck(t *vlib.T, c matCheck, st *matStats) {
 		// An empty receiver holds no data: being (re)allocated before the shape
 		// check fails is not a write to an operand (don't-care, see NOTES.md).
 		if em, ok := o.(interface{ IsEmpty() bool }); ok && em.IsEmpty() {
+			before[i] = emptyState
 			continue
 		}
 		before[i] = stateOf(o)
@@ -170,7 +175,17 @@ func runMatCheck(t *vlib.T, c matCheck, st *matStats) {
 		fail("mat-foreign-panic", "panicked with %T %v, want %s", e, e, wantDesc)
 	}
 	for i, o := range c.objs {
-		if before[i] == "" {
+		if before[i] == emptyState {
+			// an empty receiver / destination must still be empty after a rejected call, so that
+			// it can be reused for a valid call of any shape (its spare backing storage is a don't-care)
+			if em := o.(interface{ IsEmpty() bool }); !em.IsEmpty() {
+				cl := "mat-empty-receiver-sized-by-rejected-call"
+				if c.knownEmpty != "" {
+					cl = c.knownEmpty
+				}
+				debugLog(cl, "%s: empty operand %d (%T) was given a shape", c.name, i, o)
+				t.FailClass(cl, c.name+": operand %d (%T) was empty before the call and has a shape after the call panicked: a rejected call must leave an empty receiver empty (reusable for any shape)", i, o)
+			}
 			continue
 		}
 		if after := stateOf(o); after != before[i] {
@@ -944,7 +959,8 @@ func genMatShape(g *vlib.G) {
 						}
 						bs := mkv(r+1, 2)
 						var x mat.VecDense
-						runMatCheck(t, matCheck{name: fmt.Sprintf("SolveVec(%s %dx%d, len %d)", fa.name, r, c, r+1), objs: []any{&x, fa.raw, bs}, call: func() { _ = x.SolveVec(fa.m, bs) }, want: errShape}, st)
+						runMatCheck(t, matCheck{name: fmt.Sprintf("SolveVec(%s %dx%d, len %d)", fa.name, r, c, r+1), objs: []any{&x, fa.raw, bs}, call: func() { _ = x.SolveVec(fa.m, bs) }, want: errShape,
+							knownEmpty: "solvevec-empty-receiver-sized-before-shape-check"}, st)
 					}
 				}
 				a := mkVec(r, 1)
